@@ -49,9 +49,9 @@ type c08op struct {
 }
 
 type c08case struct {
-	Bundle  string   `json:"bundle"`
-	Config  string   `json:"config"`
-	History []string `json:"history"`
+	Bundle  string            `json:"bundle"`
+	Config  string            `json:"config"`
+	History []string          `json:"history"`
 	Files   map[string]string `json:"files,omitempty"`
 }
 
